@@ -1,8 +1,11 @@
 (* C09 property theorems: statements only, each closed by [exact].
-   A run is ANY list of steps (Server / Begin a / Save a / SetHist a / Gap a / GapChain c) accepted by [run]:
+   A run is ANY list of steps (Server / Begin a / Save a / SetHist a / Gap a / GapChain c / Restart) accepted by [run]:
    steps of different addresses interleave freely, the per-address lock is the only ordering constraint;
    a Server step is accepted only for a consistent state (unique non-null ids, parents present, listed in
-   the canonical order: confirmed by (height, id), then mempool by id) that retracts nothing. *)
+   the canonical order: confirmed by (height, id), then mempool by id) that retracts nothing.
+   Restart = the wallet process dies at any point (all running updates and their locks are gone, the database keeps
+   what was committed) and starts again, ensuring the gap of every chain; [no_server ops] excludes both a server
+   change and a restart. *)
 From Coq Require Import NArith ZArith List Bool.
 From LV Require Import Model.C09 Proofs.C09.
 Import ListNotations.
